@@ -1541,6 +1541,14 @@ impl<'a> Model<'a> {
                         cell_reference,
                         "A LAMBDA was returned but not called".to_string(),
                     )
+                } else if matches!(result, CalcResult::Number(v) if !v.is_finite()) {
+                    // An overflowing or undefined computation is stored as #NUM! (see `set_cells_with_result`):
+                    // dependents evaluated in this same pass must see the error too, not the infinity
+                    CalcResult::new_error(
+                        Error::NUM,
+                        cell_reference,
+                        "Number out of range".to_string(),
+                    )
                 } else if matches!(result, CalcResult::EmptyCell | CalcResult::EmptyArg) {
                     // A formula that evaluates to an empty cell holds 0 (that is what is stored below):
                     // dependents evaluated in this same pass must see the 0 too, not the emptiness
